@@ -288,6 +288,7 @@ type Lookup struct {
 	Raw   string `json:"raw"`
 	Err   string `json:"err,omitempty"`
 	Model Res    `json:"model"`
+	V     int    `json:"v,omitempty"` // putfile: the value the Put stored
 }
 type Drift struct {
 	Step int    `json:"step"`
@@ -690,6 +691,20 @@ func runSeq(c Case, r *Real, scratch, self string) (res Result) {
 				or = opResult{kind: "crashed"}
 			}
 			exp := c.Steps[last].R
+			if s.O == "put" && complete && or.kind == "putdone" {
+				// what lintcmd/runner does right after a successful Put: it keeps OutputFile(out) as the name of the
+				// stored content (writeCache* return c.OutputFile(out)) and reads it later
+				lk := Lookup{Step: last, P: s.P, Op: "putfile", K: s.K, V: s.V, Kind: "bytes", Model: Res{"bytes", symbols(r.vals[s.V-1])}}
+				raw, err := os.ReadFile(r.dataPath(dir, s.V))
+				if err != nil {
+					lk.Kind, lk.Err = "readerr", err.Error()
+					if os.IsNotExist(err) {
+						lk.Kind = "enoent"
+					}
+				}
+				lk.B, lk.Raw = symbols(raw), hex.EncodeToString(raw)
+				res.Lookups = append(res.Lookups, lk)
+			}
 			if s.O == "getfile" || s.O == "getbytes" {
 				if complete {
 					res.Lookups = append(res.Lookups, Lookup{Step: last, P: s.P, Op: s.O, K: s.K, Kind: or.kind, B: symbols(or.raw),
